@@ -371,6 +371,10 @@ def run_records(ctx, n):
     with open(path, "w") as f:
         for r in recs:
             if "harness_exception" in r:
+                lf = core.library_failure(r)
+                if lf is not None:
+                    ctx.violation(lf)
+                    continue
                 raise tlc.MachineryError("record worker failed: %s" % r)
             by_id[r["id"]] = r
             if "exc" in r:
@@ -453,6 +457,10 @@ def _consume(ctx, results, kind):
         if r is None:
             continue
         if "harness_exception" in r:
+            lf = core.library_failure(r)
+            if lf is not None:
+                ctx.violation(lf)
+                continue
             raise tlc.MachineryError("replay worker failed: %s\n%s" % (r["harness_exception"], r["tb"]))
         ctx.count()
         ctx.traces += 1
